@@ -40,6 +40,22 @@ theorem effB_nloc (I : Interp D) (args : Args D) (c : Ctx) (k : Classes c) {st :
   · exact k.nloc_of_ns (hdefs x hx)
   · exact hwr dst op srcs hb _ (oA dst r hr)
 
+/-- the buffer a new rerun binding points to is, if cached, one the rerun could already reach -/
+theorem effB_new_heap (I : Interp D) (args : Args D) (c : Ctx) (k : Classes c) {Kfin sA : St D} (b : Basic)
+    (hP : Pers c Kfin sA) (hdefs : ∀ x ∈ b.defs, x ∈ c.ns ∨ x ∈ c.sh) (hnoset : ∀ v, b ≠ .setro v)
+    (x : Var) (r : Ref) (h : (effB I args b sA).envUpd = some (x, r)) (hcl : c.cloc r.loc = true) :
+    sA.heap r.loc = Kfin.heap r.loc := by
+  rcases effB_envUpd_loc I args b sA x r h with hl | ⟨a, hl⟩ | ⟨u, _, a, ha, hl⟩
+  · exfalso
+    rcases effB_envUpd I args b sA x r h with hd | hd
+    · rw [hl] at hcl
+      rcases hdefs x hd with h' | h'
+      · rw [(nloc_ncloc (k.nloc_of_ns h')).1] at hcl; cases hcl
+      · rw [k.ncloc_of_sh h'] at hcl; cases hcl
+    · exact hnoset x hd
+  · rw [hl] at hcl; simp [Ctx.cloc] at hcl
+  · rw [← hl] at hcl ⊢; exact hP.heap u a ha hcl
+
 theorem mem_of_all_contains {l m : List Var} (h : l.all (fun d => m.contains d) = true) : ∀ x ∈ l, x ∈ m := by
   simpa using h
 
@@ -69,7 +85,7 @@ theorem sim_op (I : Interp D) (args : Args D) (c : Ctx) (hc : classesOK c = true
         not_false_eq_true, decide_true] at hF ⊢
       simp only [Bool.and_eq_true] at hchk2
       obtain ⟨⟨hreads, hdefs⟩, hform⟩ := hchk2
-      have hreads' : ∀ u ∈ b.reads, readRerun c Wl Wv u = true := by simpa using hreads
+      have hreads' : ∀ u ∈ b.reads, readRerun c Dv Wl Wv u = true := by simpa using hreads
       have hdefs' := mem_of_all_contains hdefs
       have hrd := fun u hu => readAB c hc hP hL hF (hreads' u hu)
       have hwr : ∀ dst op srcs, b = .write dst op srcs → ∀ l ∈ c.O dst, c.nloc l = true := by
@@ -91,7 +107,8 @@ theorem sim_op (I : Interp D) (args : Args D) (c : Ctx) (hc : classesOK c = true
           exact hL.hAB (.arg a) rfl
       obtain ⟨hupd, hloc⟩ := effB_AB I args c k b hL.oA hsim (fun u hu => (hrd u hu).2)
         (fun x hx => Or.inl (hdefs' x hx)) hnoset hwr
-      have hAB := AB_eff c k (effB I args b sA) (effB I args b sB) hP hL.hAB hL.eAB hsim.err hsim.heap hupd hloc hA hB
+      have hAB := AB_eff c k (effB I args b sA) (effB I args b sB) hP hL.hAB hL.eAB hsim.err hsim.heap hupd hloc
+        (effB_new_heap I args c k b hP (fun x hx => Or.inl (hdefs' x hx)) hnoset) hA hB
       rw [execB_eq I args b sA hA, execB_eq I args b sB hB]
       refine ⟨hAB.1, hAB.2.1, fun hok => ?_⟩
       have hAB' := hAB.2.2 hok
@@ -173,7 +190,7 @@ theorem sim_op (I : Interp D) (args : Args D) (c : Ctx) (hc : classesOK c = true
       simp only [Bool.and_eq_true] at hchk2
       obtain ⟨⟨⟨hreadsC, hreadsR⟩, hdefs⟩, hform⟩ := hchk2
       have hreadsC' : ∀ u ∈ b.reads, readCache c Dv u = true := by simpa using hreadsC
-      have hreadsR' : ∀ u ∈ b.reads, readRerun c Wl Wv u = true := by simpa using hreadsR
+      have hreadsR' : ∀ u ∈ b.reads, readRerun c Dv Wl Wv u = true := by simpa using hreadsR
       have hdefs' := mem_of_all_contains hdefs
       -- the constant part is already final (w.r.t. Wl, Wv) before this statement: a shared statement touches nothing cached
       have hF0 : Fut c Kfin Wl Wv sK := by
@@ -196,7 +213,8 @@ theorem sim_op (I : Interp D) (args : Args D) (c : Ctx) (hc : classesOK c = true
           (fun dst a cop hb => absurd hb (hnoarg dst a cop))
       obtain ⟨hupd, hloc⟩ := effB_AB I args c k b hL.oA hsimAB (fun u hu => (hrdA u hu).2)
         (fun x hx => Or.inr (hdefs' x hx)) hnoset (fun dst op srcs hb => absurd hb (hnow dst op srcs))
-      have hAB := AB_eff c k (effB I args b sA) (effB I args b sB) hP hL.hAB hL.eAB hsimAB.err hsimAB.heap hupd hloc hA hB
+      have hAB := AB_eff c k (effB I args b sA) (effB I args b sB) hP hL.hAB hL.eAB hsimAB.err hsimAB.heap hupd hloc
+        (effB_new_heap I args c k b hP (fun x hx => Or.inr (hdefs' x hx)) hnoset) hA hB
       have hBK := stepBK I args b (fun v => v ∈ c.sk ∨ v ∈ c.sh ∨ v ∈ c.consts) (fun l => c.cloc l = true ∨ c.shloc l = true)
         hL.eBK hL.hBK hsimBK (fun u hu => (hrdK u hu).2) hB hK
       rw [← execB_eq I args b sA hA, ← execB_eq I args b sB hB] at hAB
